@@ -174,6 +174,31 @@ def rule_r4(prog, res) -> None:
                 if not understood or not fac.equals(want):
                     bad.setdefault("factor", call)
     if ncov < 2:
+        # the one-pass form  E[x xT] - E[x] E[x]T : the same number on paper, but jackknife samples scatter by far less
+        # than their value, so the difference of the two large terms cancels (entries off by the size of the variance,
+        # negative variances, a covariance that is not positive semi-definite)
+        raw = None
+        for orient in (False, True):
+            for p in symx.Explorer(prog, inline=symx.inline_private_helpers(prog)).run(cv, {"rowvar": ast.Constant(orient)}):
+                if p.outcome != "return" or p.value is None:
+                    continue
+                for x in ast.walk(p.value):
+                    if isinstance(x, ast.BinOp) and isinstance(x.op, ast.Sub):
+                        means = [y for y in ast.walk(x.right) if isinstance(y, ast.Call) and (dotted(y.func) or unparse(y.func)).split(".")[-1] in ("mean", "average", "nanmean")]
+                        prod = any(isinstance(y, ast.BinOp) and isinstance(y.op, (ast.MatMult, ast.Mult)) or (isinstance(y, ast.Call) and (dotted(y.func) or "").split(".")[-1] in ("dot", "matmul", "einsum", "outer")) for y in ast.walk(x.left))
+                        outer = any(isinstance(y, ast.Call) and (dotted(y.func) or "").split(".")[-1] in ("outer", "multiply", "einsum", "square", "dot") for y in ast.walk(x.right)) or any(isinstance(y, ast.BinOp) and isinstance(y.op, (ast.Mult, ast.Pow, ast.MatMult)) for y in ast.walk(x.right))
+                        if len(means) >= 1 and prod and outer:
+                            raw = (p, x)
+        if raw is not None:
+            res.violation(
+                "C03.R4",
+                cv,
+                raw[0].node or cv.node,
+                f"the jackknife covariance is computed from raw moments (`{unparse(raw[1])[:70]}…`: second moment minus product of the means) instead of from the centred samples: jackknife samples differ from each other by far less than their value, "
+                "so the subtraction cancels — entries are off by the order of the variance itself, variances can come out negative and the matrix is no longer positive semi-definite",
+                key_extra="cov-raw-moments",
+            )
+            return
         raise AnalysisError("C03.R4: covariance computation not recognised (no numpy.cov call reaches the result of cov_from_samples)")
     ok_ddof, ok_fac, ok_rv = "ddof" not in bad, "factor" not in bad, "rowvar" not in bad
     if ok_ddof and ok_fac:
